@@ -67,7 +67,13 @@ class IkeSaController:
                 return None
 
         # generate the reply (if any)
-        reply = ike_sa.process_message(data)
+        try:
+            reply = ike_sa.process_message(data)
+        except Exception:
+            # a malformed IKE_SA_INIT request must not leave the IKE_SA created for it behind
+            if ike_sa.state == IkeSa.State.INITIAL:
+                self.ike_sas.remove(ike_sa)
+            raise
 
         # if rekeyed, add the new IkeSa (only once, as further messages can still arrive for the old one)
         if (ike_sa.state in (IkeSa.State.REKEYED, IkeSa.State.DEL_AFTER_REKEY_IKE_SA_REQ_SENT)
